@@ -3355,7 +3355,7 @@ impl<'store> QueryIter<'store> {
                 }
             }
             Some(&Constraint::Annotation(id, _, _, None)) => {
-                Box::new(store.annotation(id).or_fail()?.textselections())
+                unique_textselections(store.annotation(id).or_fail()?.textselections())
             }
             Some(&Constraint::Annotation(id, _, _, Some(ref offset))) => {
                 if let Some(textselection) = store.annotation(id).or_fail()?.textselections().next()
@@ -3371,7 +3371,7 @@ impl<'store> QueryIter<'store> {
             }
             Some(&Constraint::AnnotationVariable(varname, _, _, None)) => {
                 let annotation = self.resolve_annotationvar(varname)?;
-                Box::new(annotation.textselections())
+                unique_textselections(annotation.textselections())
             }
             Some(&Constraint::AnnotationVariable(varname, _, _, Some(ref offset))) => {
                 let annotation = self.resolve_annotationvar(varname)?;
@@ -4262,6 +4262,26 @@ impl<'store> IntoIterator for QueryResultItems<'store> {
 }
 
 // Helper structs and functions
+
+/// The text selections of an annotation, each once (a complex selector can select the same text twice)
+fn unique_textselections<'store>(
+    iter: impl Iterator<Item = ResultTextSelection<'store>> + 'store,
+) -> Box<dyn Iterator<Item = ResultTextSelection<'store>> + 'store> {
+    let mut seen: Vec<(TextResourceHandle, usize, usize)> = Vec::new();
+    Box::new(iter.filter(move |textselection| {
+        let key = (
+            textselection.resource().handle(),
+            textselection.begin(),
+            textselection.end(),
+        );
+        if seen.contains(&key) {
+            false
+        } else {
+            seen.push(key);
+            true
+        }
+    }))
+}
 
 /// The data of an annotation, each item once (an annotation can carry the same data twice)
 fn unique_data<'store>(
